@@ -497,6 +497,43 @@ def within_ulps(kbits, m, ulps=4):
     return lo - ulps * U.ulp_double(lo) <= kf <= hi + ulps * U.ulp_double(hi)
 
 
+DIM_PRELUDE = """
+// read the exponent of one base dimension out of the Dimension<...> pack of a unit (sums over every entry with that base, so a pack
+// in which two base dimensions were merged or duplicated shows up as a wrong exponent)
+template <class B, class... BPs> struct AuvExpSum { using type = std::ratio<0>; };
+template <class B, class H, class... Ts> struct AuvExpSum<B, H, Ts...> {
+    using rest = typename AuvExpSum<B, Ts...>::type;
+    using type = std::conditional_t<std::is_same<au::BaseT<H>, B>::value, std::ratio_add<au::ExpT<H>, rest>, rest>;
+};
+template <class B, class D> struct AuvExpOf;
+template <class B, class... BPs> struct AuvExpOf<B, au::Dimension<BPs...>> : AuvExpSum<B, BPs...> {};
+template <class D> struct AuvPackSize;
+template <class... BPs> struct AuvPackSize<au::Dimension<BPs...>> { static constexpr int value = sizeof...(BPs); };
+template <class U, bool Den> constexpr uint64_t auv_dim_pack() {
+    using D = au::detail::DimT<U>;
+    return (uint64_t)((Den ? AuvExpOf<au::base_dim::Length, D>::type::den : AuvExpOf<au::base_dim::Length, D>::type::num) + 64)
+        | (uint64_t)((Den ? AuvExpOf<au::base_dim::Mass, D>::type::den : AuvExpOf<au::base_dim::Mass, D>::type::num) + 64) << 7
+        | (uint64_t)((Den ? AuvExpOf<au::base_dim::Time, D>::type::den : AuvExpOf<au::base_dim::Time, D>::type::num) + 64) << 14
+        | (uint64_t)((Den ? AuvExpOf<au::base_dim::Current, D>::type::den : AuvExpOf<au::base_dim::Current, D>::type::num) + 64) << 21
+        | (uint64_t)((Den ? AuvExpOf<au::base_dim::Temperature, D>::type::den : AuvExpOf<au::base_dim::Temperature, D>::type::num) + 64) << 28
+        | (uint64_t)((Den ? AuvExpOf<au::base_dim::Angle, D>::type::den : AuvExpOf<au::base_dim::Angle, D>::type::num) + 64) << 35
+        | (uint64_t)((Den ? AuvExpOf<au::base_dim::Information, D>::type::den : AuvExpOf<au::base_dim::Information, D>::type::num) + 64) << 42
+        | (uint64_t)((Den ? AuvExpOf<au::base_dim::AmountOfSubstance, D>::type::den : AuvExpOf<au::base_dim::AmountOfSubstance, D>::type::num) + 64) << 49
+        | (uint64_t)((Den ? AuvExpOf<au::base_dim::LuminousIntensity, D>::type::den : AuvExpOf<au::base_dim::LuminousIntensity, D>::type::num) + 64) << 56;
+}
+"""
+
+
+def dim_pack(dim, den):
+    """the model's counterpart of auv_dim_pack: 9 x 7 bits, value + 64"""
+    v = 0
+    for i, q in enumerate(dim):
+        x = (q.denominator if den else q.numerator) + 64
+        assert 0 <= x < 128
+        v |= x << (7 * i)
+    return v
+
+
 class C02(F.Check):
     pid = "C02"
     level = "model_checking"
@@ -636,9 +673,37 @@ class C02(F.Check):
                     self.spell.append(k2)
         return ks
 
+    def dimension_kernels(self):
+        """closed: the dimension EXPONENTS of products / quotients of every pair of library units (one representative per distinct
+        dimension in quick, every pair in thorough) read out of the Dimension<...> pack equal the model's exponent vector"""
+        ks = []
+        self.dimfacts = []
+        named = [n for n in U.LIBRARY if isinstance(n, U.Named)]
+        if self.tier == "quick":
+            seen = {}
+            for n in named:
+                seen.setdefault(n.dim, n)
+            named = list(seen.values())
+        idx = 0
+        for i, a in enumerate(named):
+            for b in named[i:]:
+                for op, mu, cx in (("*", a * b, "UnitProductT<%s, %s>" % (a.cxx, b.cxx)), ("/", a / b, "UnitQuotientT<%s, %s>" % (a.cxx, b.cxx))):
+                    if op == "/" and a is b:
+                        continue
+                    if self.tier == "quick" and op == "/" and (idx % 3):
+                        idx += 1
+                        continue
+                    k = F.Kernel("c02_dimpair_%d" % idx, "uint64_t", [], "return auv_dim_pack<%s, false>();" % cx,
+                                 key={"expr": "%s %s %s" % (a.cxx, op, b.cxx)}, family="dimension_exponents", native=False)
+                    idx += 1
+                    ks.append(k)
+                    self.dimfacts.append((k, dim_pack(mu.dim, False)))
+        return ks
+
     def kernels(self):
         rng = self.rng
-        ks = self.spelling_kernels()
+        self.prelude = DIM_PRELUDE
+        ks = self.spelling_kernels() + self.dimension_kernels()
         self.pairs = self.gen_pairs()
         self.inst = []
         modes = {}
@@ -656,6 +721,17 @@ class C02(F.Check):
             s1, w1 = slot(e1, rng)
             s2, w2 = slot(e2, rng)
             add("samedim", "bool", [], "return has_same_dimension(%s, %s);" % (s1, s2), {"spelled": [w1, w2]})
+            for side, e in (("1", e1), ("2", e2)):
+                try:
+                    pn, pd = dim_pack(e.unit.dim, False), dim_pack(e.unit.dim, True)
+                except AssertionError:
+                    continue
+                sx, wx = slot(e, rng)
+                tx = sx[:-2] if wx == "type" else "AssociatedUnitT<std::remove_cv_t<decltype(%s)>>" % sx
+                add("dimn" + side, "uint64_t", [], "return auv_dim_pack<%s, false>();" % tx, {"spelled": [wx]})
+                add("dimd" + side, "uint64_t", [], "return auv_dim_pack<%s, true>();" % tx, {"spelled": [wx]})
+                rec.setdefault("dimpacks", {})["dimn" + side] = pn
+                rec["dimpacks"]["dimd" + side] = pd
             s1, w1 = slot(e1, rng)
             s2, w2 = slot(e2, rng)
             add("equiv", "bool", [], "return are_units_quantity_equivalent(%s, %s);" % (s1, s2), {"spelled": [w1, w2]})
@@ -718,6 +794,19 @@ class C02(F.Check):
                 return T.TRUE, K[name]().ret
             obs.append(F.Ob("spelling:" + k.name, [], sfn, kind="closed", key=k.key, kernels=[k.name],
                             note="this spelling denotes exactly the unit its type denotes (ratio 1)"))
+        for k, expected in getattr(self, "dimfacts", []):
+            if K[k.name].kernel.dropped:
+                ob = F.Ob("dimension_exponents:" + k.name, [], None, kind="closed", key=dict(k.key, compile_error=K[k.name].kernel.dropped[:200]), kernels=[k.name],
+                          note="the product / quotient of two library units must compile")
+                ob.status = "lowering-failed"
+                obs.append(ob)
+                continue
+
+            def dfn(K, name=k.name, expected=expected):
+                e = K[name]()
+                return T.TRUE, T.and_(T.not_(e.ub), T.eq(e.ret, T.const_bv(expected, 64)))
+            obs.append(F.Ob("dimension_exponents:" + k.name, [], dfn, kind="closed", key=dict(k.key, expected_pack=hex(expected)), kernels=[k.name],
+                            note="exponents of the 9 base dimensions (7 bits each, +64) read from the unit's Dimension pack == the model's vector"))
         ndrop = 0
         nk = 0
         for rec in self.inst:
@@ -747,6 +836,14 @@ class C02(F.Check):
                 obs.append(F.Ob("closed:%s_%d" % (fam, pi), [], fn, kind="closed", key=dict(key, expected=expected, **K[nm].kernel.key),
                                 kernels=[nm], note=note))
 
+            for fam, pack in rec.get("dimpacks", {}).items():
+                if fam in live:
+                    def pfn(K, nm=live[fam], pack=pack):
+                        e = K[nm]()
+                        return T.TRUE, T.and_(T.not_(e.ub), T.eq(e.ret, T.const_bv(pack, 64)))
+                    obs.append(F.Ob("closed:%s_%d" % (fam, pi), [], pfn, kind="closed", key=dict(key, expected_pack=hex(pack), **K[live[fam]].kernel.key),
+                                    kernels=[live[fam]], note="dimension exponent %s of the expression == the model's exponent vector"
+                                    % ("numerators" if fam.startswith("dimn") else "denominators")))
             closed("samedim", rec["same_dim"], "has_same_dimension == (model dimension vectors equal)")
             if not rec["same_dim"]:
                 closed("equiv", False, "different dimension => not quantity-equivalent")
